@@ -1,53 +1,86 @@
 --------------------------- MODULE Listener ---------------------------
 (* Wake-up of waiting changes feeds: db/change_listener.go.
    Everything happens under tapNotifier.L, so each action is one critical section:
-     NotifyWatched / NotifyOther   changeListener.Notify: counter++ and keyCounts[k] = counter for the notified keys -
-                                   NO broadcast (the ticker goroutine broadcasts)
-     Tick                          the goroutine of StartNotifierBroadcaster: if counter > currCount then Broadcast, currCount = counter
-     WaiterCall                    the feed loop (SimpleMultiChangesFeed: waitForChanges) calls ChangeWaiter.Wait again
-     WaiterCheck                   changeListener.Wait: compare _currentCount(keys) with the waiter's lastCounter; return or cond.Wait
-   kc = the maximum keyCounts over the keys the waiter watches.
-   Decides the "eventually" clause of C01 on the model (liveness under fairness); not bound to the code in this round. *)
-EXTENDS Naturals
+     Notify(k)        changeListener.Notify: counter++ and keyCounts[k] = counter - NO broadcast (the ticker goroutine broadcasts).
+                      Keys: "chan" (a channel the feed reads), "other" (nobody waits on it), "user" (the user document) and one
+                      key per role document.
+     SwapRole(a, b)   one update of the user document replaces role a by role b (same number of roles) and notifies "user"
+     Tick             the goroutine of StartNotifierBroadcaster: if counter > currCount then Broadcast, currCount = counter
+     WaiterCall       the feed loop (SimpleMultiChangesFeed: waitForChanges) calls ChangeWaiter.Wait again
+     WaiterCheck      changeListener.Wait: compare _currentCount(keys) with the waiter's lastCounter; return or cond.Wait.
+                      On return the feed loop runs checkForUserUpdates: lastUser = count over the user keys (user + watched
+                      roles); if it moved the user is reloaded and ChangeWaiter.RefreshUserKeys re-derives the role keys
+                      from the user's CURRENT roles (Refresh).  RefreshByCount is the variant that keeps the keys when
+                      their number is unchanged - the liveness property UserSeen rejects it (MC_Listener_bycount.cfg).
+   Decides the "eventually" clause of C01 on the model (liveness under fairness). *)
+EXTENDS Naturals, FiniteSets
 
-CONSTANT MaxNotify      \* bound on notifications (a guard, so that no constraint can hide a non-progress cycle)
+CONSTANTS MaxNotify,    \* bound on notifications (a guard, so that no constraint can hide a non-progress cycle)
+          Roles,        \* role names
+          ByCount       \* FALSE = RefreshUserKeys as coded; TRUE = the count-based early exit (must violate UserSeen)
 
-VARIABLES counter, kc,  \* listener.counter, max of keyCounts over the watched keys
+Keys == {"chan", "other", "user"} \cup Roles
+
+VARIABLES counter, kc,  \* listener.counter, keyCounts
           currCount,    \* the broadcaster's private copy
+          roles,        \* the user's current roles (user document)
+          wroles,       \* the role keys the waiter watches (waiter.userKeys minus the user key)
           pc,           \* waiter: "running" (iterating the feed) | "check" (holds the lock inside Wait) | "parked" (in cond.Wait)
-          lastSeen      \* waiter.lastCounter
-vars == <<counter, kc, currCount, pc, lastSeen>>
+          lastSeen,     \* waiter.lastCounter
+          lastUser      \* waiter.lastUserCount
+vars == <<counter, kc, currCount, roles, wroles, pc, lastSeen, lastUser>>
 
-Init == counter = 1 /\ kc = 0 /\ currCount = 0 /\ pc = "running" /\ lastSeen = 0
+Max(S) == IF S = {} THEN 0 ELSE CHOOSE x \in S : \A y \in S : y <= x
+Watched == {"chan", "user"} \cup wroles
+Count(K) == Max({kc[k] : k \in K})
 
-NotifyWatched == /\ counter <= MaxNotify
-                 /\ counter' = counter + 1 /\ kc' = counter + 1
-                 /\ UNCHANGED <<currCount, pc, lastSeen>>
-NotifyOther   == /\ counter <= MaxNotify
-                 /\ counter' = counter + 1
-                 /\ UNCHANGED <<kc, currCount, pc, lastSeen>>
+Init == /\ counter = 1 /\ kc = [k \in Keys |-> 0] /\ currCount = 0
+        /\ roles \in {R \in SUBSET Roles : Cardinality(R) = 1} /\ wroles = roles
+        /\ pc = "running" /\ lastSeen = 0 /\ lastUser = 0
+
+Notify(k) == /\ counter <= MaxNotify
+             /\ counter' = counter + 1 /\ kc' = [kc EXCEPT ![k] = counter + 1]
+             /\ UNCHANGED <<currCount, roles, wroles, pc, lastSeen, lastUser>>
+SwapRole(a, b) == /\ counter <= MaxNotify /\ a \in roles /\ b \notin roles
+                  /\ roles' = (roles \ {a}) \cup {b}
+                  /\ counter' = counter + 1 /\ kc' = [kc EXCEPT !["user"] = counter + 1]
+                  /\ UNCHANGED <<currCount, wroles, pc, lastSeen, lastUser>>
 Tick == IF counter > currCount
         THEN /\ currCount' = counter
              /\ pc' = IF pc = "parked" THEN "check" ELSE pc       \* Broadcast: a parked waiter re-acquires the lock and re-checks
-             /\ UNCHANGED <<counter, kc, lastSeen>>
+             /\ UNCHANGED <<counter, kc, roles, wroles, lastSeen, lastUser>>
         ELSE UNCHANGED vars
-WaiterCall  == pc = "running" /\ pc' = "check" /\ UNCHANGED <<counter, kc, currCount, lastSeen>>
-WaiterCheck == /\ pc = "check"
-               /\ IF kc # lastSeen THEN pc' = "running" /\ lastSeen' = kc
-                                   ELSE pc' = "parked" /\ UNCHANGED lastSeen
-               /\ UNCHANGED <<counter, kc, currCount>>
+WaiterCall  == pc = "running" /\ pc' = "check" /\ UNCHANGED <<counter, kc, currCount, roles, wroles, lastSeen, lastUser>>
+Refresh == IF ByCount /\ Cardinality(wroles) = Cardinality(roles) THEN wroles ELSE roles
+WaiterCheck ==
+  /\ pc = "check"
+  /\ IF Count(Watched) # lastSeen
+     THEN LET u == Count({"user"} \cup wroles) IN
+          /\ pc' = "running" /\ lastSeen' = Count(Watched)
+          /\ IF u # lastUser                                   \* the user (or a watched role) changed: reload, refresh the keys
+             THEN wroles' = Refresh /\ lastUser' = Max({kc[k] : k \in {"user"} \cup Refresh})
+             ELSE UNCHANGED <<wroles, lastUser>>
+     ELSE pc' = "parked" /\ UNCHANGED <<lastSeen, wroles, lastUser>>
+  /\ UNCHANGED <<counter, kc, currCount, roles>>
 
-Next == NotifyWatched \/ NotifyOther \/ Tick \/ WaiterCall \/ WaiterCheck
+Next == \/ \E k \in Keys : Notify(k)
+        \/ \E a, b \in Roles : SwapRole(a, b)
+        \/ Tick \/ WaiterCall \/ WaiterCheck
 Spec == Init /\ [][Next]_vars
 (* the ticker keeps ticking, a woken/calling waiter gets the lock, the feed loop always comes back to Wait *)
 FairSpec == Spec /\ WF_vars(Tick /\ counter > currCount) /\ WF_vars(WaiterCheck) /\ WF_vars(WaiterCall)
 
-(* safety: a parked waiter has seen everything, or a broadcast is still due *)
-NoLostUpdate == pc = "parked" => (lastSeen = kc \/ counter > currCount)
-TypeOK == counter \in 1..(MaxNotify + 1) /\ kc <= counter /\ currCount <= counter /\ lastSeen <= kc
-(* liveness: every notification of a watched key is eventually seen by the waiter (lastSeen is only assigned when
-   Wait returns, i.e. when the waiter becomes "running" again) *)
-Seen == \A n \in 1..(MaxNotify + 1) : (kc = n) ~> (lastSeen >= n)
+(* safety: a parked waiter has seen everything on its keys, or a broadcast is still due *)
+NoLostUpdate == pc = "parked" => (lastSeen = Count(Watched) \/ counter > currCount)
+TypeOK == counter \in 1..(MaxNotify + 1) /\ currCount <= counter /\ \A k \in Keys : kc[k] <= counter
+(* liveness: every notification of a channel the feed reads is eventually seen by the waiter (lastSeen is only assigned
+   when Wait returns) ... *)
+Seen == \A n \in 1..(MaxNotify + 1) : (kc["chan"] = n) ~> (lastSeen >= n)
+(* ... and every change of the user document or of a role the user holds eventually makes the feed reload the user
+   (lastUser moves), unless the user lost that role meanwhile *)
+UserSeen == \A n \in 1..(MaxNotify + 1) :
+              /\ (kc["user"] = n) ~> (lastUser >= n)
+              /\ \A r \in Roles : (kc[r] = n /\ r \in roles) ~> (lastUser >= n \/ r \notin roles)
 (* the same without the ticker is false (the waiter may stay parked): checked once by hand, see NOTES.md *)
-NoTickSpec == Init /\ [][NotifyWatched \/ NotifyOther \/ WaiterCall \/ WaiterCheck]_vars /\ WF_vars(WaiterCheck) /\ WF_vars(WaiterCall)
+NoTickSpec == Init /\ [][(\E k \in Keys : Notify(k)) \/ WaiterCall \/ WaiterCheck]_vars /\ WF_vars(WaiterCheck) /\ WF_vars(WaiterCall)
 =============================================================================
